@@ -173,6 +173,22 @@ fn relations(tier: Tier) -> Vec<Rel> {
     sw_rels::<<ark_test_curves::bls12_381::g1::Config as WBConfig>::IsogenousCurve>(&mut out, "test.bls12_381.G1.iso", tier, 2, Doc::Cofactor);
     sw_rels::<<ark_test_curves::bls12_381::g2::Config as WBConfig>::IsogenousCurve>(&mut out, "test.bls12_381.G2.iso", tier, 1, Doc::Cofactor);
     sw_rels::<ark_ed_on_bls12_381_bandersnatch::BandersnatchConfig>(&mut out, "bandersnatch.SW", tier, 4, Doc::Cofactor);
+    // shipped configurations that declare cofactor one (default test short-circuits to `true`, clearing is the identity
+    // map): the declaration itself is what is checked - every point of the curve must be killed by r
+    sw_rels::<ark_secp256k1::Config>(&mut out, "secp256k1", tier, 1, Doc::Cofactor);
+    sw_rels::<ark_secq256k1::Config>(&mut out, "secq256k1", tier, 1, Doc::Cofactor);
+    sw_rels::<ark_secp256r1::Config>(&mut out, "secp256r1", tier, 1, Doc::Cofactor);
+    sw_rels::<ark_secp384r1::Config>(&mut out, "secp384r1", tier, 1, Doc::Cofactor);
+    sw_rels::<ark_pallas::PallasConfig>(&mut out, "pallas", tier, 1, Doc::Cofactor);
+    sw_rels::<ark_vesta::VestaConfig>(&mut out, "vesta", tier, 1, Doc::Cofactor);
+    sw_rels::<ark_grumpkin::GrumpkinConfig>(&mut out, "grumpkin", tier, 1, Doc::Cofactor);
+    sw_rels::<ark_mnt4_298::g1::Config>(&mut out, "mnt4_298.G1", tier, 1, Doc::Cofactor);
+    sw_rels::<ark_mnt6_298::g1::Config>(&mut out, "mnt6_298.G1", tier, 1, Doc::Cofactor);
+    sw_rels::<ark_mnt4_753::g1::Config>(&mut out, "mnt4_753.G1", tier, 0, Doc::Cofactor);
+    sw_rels::<ark_mnt6_753::g1::Config>(&mut out, "mnt6_753.G1", tier, 0, Doc::Cofactor);
+    sw_rels::<ark_test_curves::secp256k1::Config>(&mut out, "test.secp256k1", tier, 1, Doc::Cofactor);
+    sw_rels::<ark_test_curves::bn384_small_two_adicity::g1::Config>(&mut out, "test.bn384.G1", tier, 1, Doc::Cofactor);
+    sw_rels::<ark_test_curves::mnt4_753::g1::Config>(&mut out, "test.mnt4_753.G1", tier, 0, Doc::Cofactor);
     te_rels::<ark_ed_on_bls12_381::JubjubConfig>(&mut out, "ed_on_bls12_381", tier, 2);
     te_rels::<ark_ed_on_bls12_381_bandersnatch::BandersnatchConfig>(&mut out, "bandersnatch", tier, 2);
     te_rels::<ark_ed_on_bls12_377::EdwardsConfig>(&mut out, "ed_on_bls12_377", tier, 2);
@@ -224,7 +240,7 @@ fn relations(tier: Tier) -> Vec<Rel> {
 fn main() {
     vh_core::engine::main(PropSpec {
         id: "C12",
-        rule: "Curves: every shipped SW/TE configuration, the SWU-isogenous helper curves of bls12_381, bls12_377 and test-curves (WBConfig::IsogenousCurve) and toy curves. Points of the whole curve: the first point with abscissa >= an arbitrary x (short Weierstrass) / ordinate >= an arbitrary y (twisted Edwards) - outside the prime-order subgroup with probability 1-1/h -, points of small prime order (r·h/l)·R for every prime l < 2000 dividing the cofactor, the cofactor-torsion component r·R, sums of a subgroup point and such a point, subgroup points s·G, G and the identity; toy curves: every point (membership) and every ordered pair (clearing). Oracles: membership <=> r·P = O with a right-to-left double-and-add over +/double (SW) or the affine Edwards-law oracle (TE), never mul_bigint; clear_cofactor(P) is on the curve, killed by r, accepted by the membership test, equals [c]P for the documented integer (COFACTOR by default; 1-x = RFC 9380 h_eff for BLS12-381 G1, x-1 for BLS12-377 G1, RFC 9380 h_eff for BLS12-381 G2, typed from the documents), is additive and commutes with scalars; mul_by_cofactor = [h]P; mul_by_cofactor_inv undoes mul_by_cofactor on the subgroup; COFACTOR·COFACTOR_INV = 1 mod r; clear_cofactor(G) != O; rand samples (StdRng seeded from the tape) are on the curve and killed by r. A case is non-trivial when the point is on the curve and outside the prime-order subgroup (constants / rand: when the cofactor is > 1); distinct = distinct decoded choice sequences.",
+        rule: "Curves: every shipped SW/TE configuration - including the ones that declare cofactor one (secp256k1/r1, secp384r1, secq256k1, pallas, vesta, grumpkin, the MNT G1 groups, test-curves secp256k1 / bn384 / mnt4_753 G1), for which the declaration itself is what is checked: every generated point of the curve must be killed by r -, the SWU-isogenous helper curves of bls12_381, bls12_377 and test-curves (WBConfig::IsogenousCurve) and toy curves. Points of the whole curve: the first point with abscissa >= an arbitrary x (short Weierstrass) / ordinate >= an arbitrary y (twisted Edwards) - outside the prime-order subgroup with probability 1-1/h -, points of small prime order (r·h/l)·R for every prime l < 2000 dividing the cofactor, combinations a*T1 + b*T2 of two order-l points for every prime l < 2^21 dividing the cofactor (member-torsion/*: for l < 2000 the sweep reaches every line of E[l], for the larger l - e.g. 10177 and 859267 on BLS12-381 G1, 2713, 11953 and 262069 on G2, 10069 on BN254 G2 - (a,b) is a random element of (Z/l)^2), the cofactor-torsion component r·R, sums of a subgroup point and such a point, subgroup points s·G, G and the identity, the points with abscissa 0 where they exist (alone or added to a subgroup point); toy curves: every point (membership) and every ordered pair (clearing). Oracles: membership <=> r·P = O with a right-to-left double-and-add over +/double (SW) or the affine Edwards-law oracle (TE), never mul_bigint; clear_cofactor(P) is on the curve, killed by r, accepted by the membership test, is the same map through the three spellings P.clear_cofactor(), Config::clear_cofactor(&P) and AffineRepr::clear_cofactor(&P), equals [c]P for the documented integer (COFACTOR by default; 1-x = RFC 9380 h_eff for BLS12-381 G1, x-1 for BLS12-377 G1, RFC 9380 h_eff for BLS12-381 G2, typed from the documents), is additive and commutes with scalars; mul_by_cofactor = [h]P; mul_by_cofactor_inv undoes mul_by_cofactor on the subgroup; COFACTOR·COFACTOR_INV = 1 mod r; clear_cofactor(G) != O; rand samples (StdRng seeded from the tape) are on the curve and killed by r. A case is non-trivial when the point is on the curve and outside the prime-order subgroup (constants / rand: when the cofactor is > 1); distinct = distinct decoded choice sequences.",
         assumptions: &[
             "the group law (+, double, ==, into_affine) is correct on the inputs used (property C03); twisted-Edwards curves use the independent affine oracle instead",
             "get_point_from_x_unchecked / get_point_from_y_unchecked are only used as a point source; every generated point is re-checked against the curve equation by the harness",
